@@ -518,4 +518,40 @@ PROPS = {
                 "without limit (call-backs, cancellations), 3 with limit 8 / discard 3 and 26-46 slow calls in flight",
         "trusted": [],
     },
+    "C15": {
+        "harness": "c15",
+        "imports": ["Base", "Dispatch", "Total", "Check15"],
+        "case_type": "c15_case",
+        "check": "c15_check",
+        "timeout_quick": 900,
+        "crash_is_violation": True,
+        "theories": ["theories/Base.v", "theories/Dispatch.v", "theories/Total.v", "theories/TotalProofs.v", "gen/Facts.v"],
+        "check_theories": ["theories/Check15.v"],
+        "level_text": "Coq theorems over a model of message handling with Go's nil dereference as an explicit Panic "
+                      "outcome: for every message shape (request / reply / both / neither; id present or not; params "
+                      "absent, not an array, any arity and JSON kinds) the reading side does not panic, every request "
+                      "gets exactly one reply carrying its id with either a result or an error, stray messages are "
+                      "routed by id or dropped, and a caller consuming any reply (without result and error, null, "
+                      "error, wrong type) returns a value or an error; the unguarded consumer of the pinned tree is "
+                      "refuted. The inventory of panic-capable expressions in the network-facing functions is "
+                      "regenerated from the sources on every run and must equal the reviewed list (computed "
+                      "obligation), so a new unguarded slice/index/assertion breaks the proof. PARTIAL: encoding/json's "
+                      "lexer, HTTP and WebSocket framing are trusted libraries exercised only by the byte-stream cases. "
+                      "Tied to the code by differential fuzzing of a child process serving the production registrations "
+                      "over sockets (Remote.Serve: a panic in a handler goroutine kills it) and HTTP: type-directed "
+                      "hostile requests for every documented method, unsolicited/odd replies, malformed byte streams, "
+                      "hostile replies to the pool's own vipnode_whitelist calls, correctly signed requests with odd "
+                      "contents; after hostile messages the same and a second connection must still answer a probe.",
+        "level_note": "Trusted: Coq kernel; the AST-based site extractor (syntactic: map indexes and len()-sized makes are "
+                      "excluded); the reviewed justifications of the listed sites are by inspection, the signature and "
+                      "EnodeID ones are also theorems (C04/C02); success and internal-error replies are one class in the "
+                      "correspondence (the method bodies are not modelled here).",
+        "technique": "Coq proof over a Panic-explicit message model + computed obligation over the regenerated panic-site "
+                     "inventory + vm_compute correspondence on differential fuzzing of a subprocess",
+        "rule": "6 child processes x 120 generated messages (4 over sockets, 2 over HTTP): 12 shape classes, params "
+                "type-directed with odd strings/ids/numbers/objects and wrong kinds/arity; 15 malformed byte streams "
+                "over socket and HTTP; 1 signed session: 8 hostile replies to the pool's call-backs, 8 correctly signed "
+                "odd requests, an account query for a wallet-style node id",
+        "trusted": [],
+    },
 }
